@@ -274,7 +274,10 @@ impl ShmReader {
             #[cfg(clockbound_verif)]
             let snapshot = crate::verif::data_read(self.ceb_shm, snapshot);
 
-            // Confirm no update occurred during the read
+            // Confirm no update occurred during the read. The Acquire load below only orders
+            // what follows it: the fence keeps the loads of the record above from being
+            // satisfied after the generation is read again.
+            atomic::fence(atomic::Ordering::Acquire);
             let second_gen = generation.load(atomic::Ordering::Acquire);
             if first_gen == second_gen {
                 self.snapshot_gen = first_gen;
